@@ -41,7 +41,7 @@ fn c06_corner(v: &Value) -> bool {
     }
 }
 
-pub fn c06(ctx: &mut Ctx) {
+fn c06_core(ctx: &mut Ctx) {
     let mut vals = v_all();
     for t in ["[[]]", "[0]", "[\"\"]", "[null]", "{\"\":0}", "-0.0", "0.0", "1e-320", "\"0\"", "\" \"", "\"false\"", "\"\\u0000\"", "[false]", "[[0]]", "0e0", "-0"] {
         vals.push(parse(t));
@@ -284,7 +284,7 @@ fn c07_pair(ctx: &mut Ctx, a: &Value, b: &Value) {
     }
 }
 
-pub fn c07(ctx: &mut Ctx) {
+fn c07_core(ctx: &mut Ctx) {
     pairs_corpus(ctx, &mut |c, a, b| c07_pair(c, a, b));
     let n = ctx.budget(6_000, 1_200_000);
     for _ in 0..n {
@@ -355,7 +355,7 @@ fn c08_pair(ctx: &mut Ctx, a: &Value, b: &Value) {
     }
 }
 
-pub fn c08(ctx: &mut Ctx) {
+fn c08_core(ctx: &mut Ctx) {
     // number spellings of the same double, integers around 2^53 and 2^63
     let spell = ["1", "1.0", "1e0", "1E0", "10e-1", "0", "-0.0", "0.0", "0e5", "9007199254740992", "9007199254740993", "9007199254740992.0", "9223372036854775807", "9223372036854775808", "9223372036854775808.0", "9.223372036854775807e18", "18446744073709551615", "1.8446744073709552e19", "-9223372036854775808", "-9223372036854775808.0"];
     let sv: Vec<Value> = spell.iter().map(|t| parse(t)).collect();
@@ -460,7 +460,7 @@ fn c09_triple(ctx: &mut Ctx, a: &Value, b: &Value, c: &Value) {
     }
 }
 
-pub fn c09(ctx: &mut Ctx) {
+fn c09_core(ctx: &mut Ctx) {
     pairs_corpus(ctx, &mut |c, a, b| c09_pair(c, a, b));
     let small = v_small();
     let mut idx = 0u64;
@@ -547,7 +547,7 @@ fn c10_case(ctx: &mut Ctx, op: &str, operands: &[Value]) {
     }
 }
 
-pub fn c10(ctx: &mut Ctx) {
+fn c10_core(ctx: &mut Ctx) {
     let nums = v_numbers();
     let mut pool: Vec<Value> = nums.clone();
     pool.extend(v_scalars());
@@ -697,7 +697,7 @@ fn c15_in(ctx: &mut Ctx, needle: &Value, hay: &Value) {
     }
 }
 
-pub fn c15(ctx: &mut Ctx) {
+fn c15_core(ctx: &mut Ctx) {
     let v = v_all();
     let small = v_small();
     let mut idx = 0u64;
@@ -917,7 +917,7 @@ fn c16_cat(ctx: &mut Ctx, operands: &[Value]) {
     }
 }
 
-pub fn c16(ctx: &mut Ctx) {
+fn c16_core(ctx: &mut Ctx) {
     let maxlen = if ctx.thorough() { 4 } else { 3 };
     let strings = u_strings(maxlen);
     let extremes = [i64::MIN, i64::MIN + 1, i64::MAX, i64::MAX - 1];
@@ -967,4 +967,106 @@ pub fn c16(ctx: &mut Ctx) {
         let ops: Vec<Value> = (0..k).map(|_| rand_value(&mut ctx.rng, 3)).collect();
         c16_cat(ctx, &ops);
     }
+}
+
+// ---------------------------------------------------------------------------------------
+// entry points used by the size ladders (props_sizes.rs)
+
+pub fn c06_value_pub(ctx: &mut Ctx, v: &Value) {
+    c06_value(ctx, v)
+}
+pub fn c07_pair_pub(ctx: &mut Ctx, a: &Value, b: &Value) {
+    c07_pair(ctx, a, b);
+    c07_pair(ctx, b, a);
+}
+pub fn c08_pair_pub(ctx: &mut Ctx, a: &Value, b: &Value) {
+    c08_pair(ctx, a, b);
+    c08_pair(ctx, b, a);
+}
+pub fn c09_pair_pub(ctx: &mut Ctx, a: &Value, b: &Value) {
+    c09_pair(ctx, a, b);
+    c09_pair(ctx, b, a);
+}
+pub fn c09_triple_pub(ctx: &mut Ctx, a: &Value, b: &Value, c: &Value) {
+    c09_triple(ctx, a, b, c)
+}
+pub fn c10_case_pub(ctx: &mut Ctx, op: &str, operands: &[Value]) {
+    c10_case(ctx, op, operands)
+}
+pub fn c15_in_pub(ctx: &mut Ctx, needle: &Value, hay: &Value) {
+    c15_in(ctx, needle, hay)
+}
+pub fn c15_merge_pub(ctx: &mut Ctx, operands: &[Value]) {
+    c15_merge(ctx, operands)
+}
+pub fn c16_substr_pub(ctx: &mut Ctx, s: &str, start: i64, len: Option<i64>) {
+    c16_substr(ctx, s, start, len)
+}
+pub fn c16_cat_pub(ctx: &mut Ctx, operands: &[Value]) {
+    c16_cat(ctx, operands)
+}
+pub fn c16_laws_pub(ctx: &mut Ctx, s: &str, only: Option<Vec<i64>>) {
+    match only {
+        None => c16_laws(ctx, s),
+        Some(ps) => {
+            let n = s.chars().count() as i64;
+            for i in ps.iter().cloned().chain([n, n + 1].into_iter()) {
+                let a = substr_real(ctx, s, 0, Some(i));
+                let b = substr_real(ctx, s, i, None);
+                ctx.mon("c16.substr.split-recombine").observed += 1;
+                if let (Some(a), Some(b)) = (&a, &b) {
+                    ctx.mon("c16.substr.split-recombine").judged += 1;
+                    if format!("{}{}", a, b) != s {
+                        ctx.violation("c16.substr.split-recombine", "split-recombine", &json!({"substr": [s, 0, i]}), &Value::Null, json!({"length": n}), json!({"head_chars": a.chars().count(), "tail_chars": b.chars().count()}), "substr(s,0,i) followed by substr(s,i) is not s");
+                    }
+                }
+                let k = (n - i).max(1);
+                let got = substr_real(ctx, s, -k, None);
+                ctx.mon("c16.substr.suffix").observed += 1;
+                if let Some(g) = got {
+                    ctx.mon("c16.substr.suffix").judged += 1;
+                    let cs: Vec<char> = s.chars().collect();
+                    let want: String = cs[(n - k).max(0) as usize..].iter().collect();
+                    if g != want {
+                        ctx.violation("c16.substr.suffix", "negative-start", &json!({"substr": [s, -k]}), &Value::Null, json!({"chars": want.chars().count()}), json!({"chars": g.chars().count()}), "substr(s,-k) is not the last k characters");
+                    }
+                }
+            }
+        }
+    }
+}
+
+pub fn c06(ctx: &mut Ctx) {
+    c06_core(ctx);
+    crate::props_sizes::c06(ctx);
+}
+
+pub fn c07(ctx: &mut Ctx) {
+    c07_core(ctx);
+    crate::props_sizes::c07(ctx);
+}
+
+pub fn c08(ctx: &mut Ctx) {
+    c08_core(ctx);
+    crate::props_sizes::c08(ctx);
+}
+
+pub fn c09(ctx: &mut Ctx) {
+    c09_core(ctx);
+    crate::props_sizes::c09(ctx);
+}
+
+pub fn c10(ctx: &mut Ctx) {
+    c10_core(ctx);
+    crate::props_sizes::c10(ctx);
+}
+
+pub fn c15(ctx: &mut Ctx) {
+    c15_core(ctx);
+    crate::props_sizes::c15(ctx);
+}
+
+pub fn c16(ctx: &mut Ctx) {
+    c16_core(ctx);
+    crate::props_sizes::c16(ctx);
 }
